@@ -123,6 +123,11 @@ def desc_agree(ctx, sd, b, d, data, controls=None, gate=None):
                 fixed = 0
             if io_.channels != len(u['ins']) - fixed or io_.rate != scgf.RATE_NAME[u['rate']]:
                 raise Violation(f'reader output unit {io_} vs decoded {u}', None, data('desc-io'))
+            _bus_name(d, u, io_, data)
+        ins_ = [u for u in d['ugens'] if u['cls'] in ('In', 'LocalIn', 'LagIn', 'InFeedback', 'InTrig')]
+        for io_, u in zip(desc.inputs, ins_):
+            if u['cls'] != 'LocalIn':
+                _bus_name(d, u, io_, data)
         if controls is not None:
             if [n for n, _ in d['pnames']] != [c[0] for c in controls]:
                 raise Violation(f'control names {[n for n, _ in d["pnames"]]} != source parameters '
@@ -144,6 +149,48 @@ def desc_agree(ctx, sd, b, d, data, controls=None, gate=None):
             raise Violation(f'reader gate flag {desc.has_gate} != {gate}', None, data('desc-gate'))
     ctx.obligations += 1
     ctx.discharged += 1
+
+
+def _bus_name(d, u, io_, data):
+    """a bus argument fed by a named control is reported by that control's name"""
+    if not u['ins']:
+        return
+    su, so = u['ins'][0]
+    if su < 0:
+        return
+    src = d['ugens'][su]
+    if src['cls'] not in ('Control', 'TrigControl', 'AudioControl', 'LagControl'):
+        return
+    slot = src['spec'] + so
+    names = {idx: nm for nm, idx in d['pnames']}
+    want = names.get(slot)
+    if want is not None and io_.starting_channel != want:
+        raise Violation(f'reader reports the bus of {u["cls"]} as {io_.starting_channel!r}; it is fed by control '
+                        f'slot {slot}, which the name table calls {want!r}', None, data('desc-bus'))
+
+
+def fam_iobus(ctx):
+    """bus arguments given by controls of different rate groups (so that they live in different control units)"""
+    m = U()
+    fr, ob, ib = ctx.real('fr'), ctx.real('ob', 0, 8), ctx.real('ib', 0, 8)
+    rk = ctx.choose('rates', 4)
+    rates = [['ir', None, None], [None, 'ir', None], ['tr', None, 'ir'], [None, None, None]][rk]
+    rec = {'mode': 'nrt', 'names': ['fr', 'ob', 'ib'], 'sel': {'rates': rk}}
+    data = _data('iobus', rec)
+
+    def g(freq=fr, out=ob, inbus=ib):
+        n, iou = m['nse'], m['iou']
+        iou.Out.ar(out, iou.In.ar(inbus, 1) + n.LFNoise0.ar(freq))
+    try:
+        sd, b, order = build('io', g, rates=rates)
+    except (PathAbort, Inconclusive, Violation):
+        raise
+    except Exception as e:
+        raise Violation(f'valid graph does not compile: {type(e).__name__}: {e}', None, data('compile'))
+    d = structural(ctx, sd, b, order, data, 'io')
+    desc_agree(ctx, sd, b, d, data)
+    ctx.note('iobus')
+    return {'fam': 'iobus', 'rates': rates}
 
 
 def _data(fam, rec):
@@ -440,6 +487,8 @@ def job(j):
         h = lambda c: fam_name(c, j.get('lo', 0), j.get('hi', 257))  # noqa
     elif fam == 'controls':
         h = lambda c: fam_controls(c, j['v'])      # noqa
+    elif fam == 'iobus':
+        h = fam_iobus
     elif fam == 'invalid':
         h = lambda c: fam_invalid(c, j['kind'])    # noqa
     st = explore(h, max_paths=5000, timeout_ms=20000, stop_on_violation=True)
@@ -501,6 +550,8 @@ def replay(rec):
             fam_name(ctx, rec.get('lo', 0), rec.get('hi', 257))
         elif fam == 'controls':
             fam_controls(ctx, rec['v'])
+        elif fam == 'iobus':
+            fam_iobus(ctx)
         elif fam == 'invalid':
             fam_invalid(ctx, rec['kind'])
     except Violation as v:
@@ -539,9 +590,10 @@ def main(tier, seed):
                 jobs.append(dict(fam='controls', v=dict(sizes=list(sizes), gate=gate, rates=r)))
     kinds = ['rate', 'rate-mixed', 'nan', 'nan-arith', 'str', 'none', 'filter-rate', 'nan-unit']
     jobs += [dict(fam='invalid', kind=k) for k in kinds]
+    jobs += [dict(fam='iobus')]
     for r in run_jobs('vf.props.c02', 'job', jobs, 'nrt'):
         chk.add('families', r)
-    chk.require_notes('families', ['wide', 'multi', 'many', 'name', 'name-rejected', 'controls'] +
+    chk.require_notes('families', ['wide', 'multi', 'many', 'name', 'name-rejected', 'controls', 'iobus'] +
                       ['rejected:' + k for k in kinds])
     chk.programs = sum(a.get('paths', 0) for a in chk.parts.values())
     chk.bounds = {'families': ['width-first x optimiser rewrite (%d variants)' % len(wide), 'multi-output/nested '
